@@ -384,6 +384,39 @@ fn mixed_sequences(rep: &mut Report, rng: &mut Rng, n_seq: u64) {
                             }
                         }
                     }
+                    // the same grid over a *structured* prediction (the residual is added onto what is there):
+                    // rows or columns of zeros next to textured ones, letterbox tops, random bytes
+                    let kind = rng.below(5);
+                    let mut pre = vec![0u8; spl * rows];
+                    rng.fill(&mut pre);
+                    for (i, v) in pre.iter_mut().enumerate() {
+                        let (x, y) = (i % spl, i / spl);
+                        match kind {
+                            0 => {}
+                            1 if y % 8 == 0 => *v = 0,
+                            2 if x % 8 == 0 => *v = 0,
+                            3 if y % 8 == 0 || x % 8 == 0 => *v = if (x + y) % 16 < 8 { 0 } else { 255 },
+                            4 if y % 8 < 4 => *v = 0,
+                            _ => {}
+                        }
+                    }
+                    let mut plane = pre.clone();
+                    if let Err(p) = catch(|| idct_channel(&grid, &mut plane, bw, spl)) {
+                        rep.violation(format!("panic@{}", p.loc), format!("IDCT panicked on a structured prediction: {}", p.msg), coords());
+                        return;
+                    }
+                    for y in 0..rows {
+                        for x in 0..spl {
+                            let b = (y / 8) * bw + x / 8;
+                            let want = (pre[y * spl + x] as i32 + refs[seq[b]][y % 8][x % 8]).clamp(0, 255);
+                            let g = plane[y * spl + x] as i32;
+                            if (g - want).abs() > 1 {
+                                rep.violation("prediction-dependence", format!("{}x{}-block grid over a {}x{} prediction of kind {}: sample ({},{}) of block {} is {} but prediction {} + reference residual {} gives {}", bw, bh, spl, rows, kind, x, y, b, g, pre[y * spl + x], refs[seq[b]][y % 8][x % 8], want), coords());
+                                return;
+                            }
+                        }
+                    }
+                    rep.count("structured_prediction_planes");
                     rep.count("cropped_grid_planes");
                     if spl % 8 != 0 {
                         rep.count("cropped_grid_planes_partial_columns");
@@ -494,6 +527,7 @@ pub fn run(ctx: &Ctx) -> (Report, String) {
         rep.require("zero_blocks_ok", 15);
         rep.require("mixed_sequence_blocks", 100_000);
         rep.require("cropped_grid_planes", 1000);
+        rep.require("structured_prediction_planes", 1000);
         rep.require("cropped_grid_planes_partial_columns", 500);
         rep.require("cropped_grid_planes_with_blocks_outside", 100);
         rep.require("structured_full_blocks", 30_000);
